@@ -218,6 +218,16 @@ def special_values(rng, keys, kind):
     return {k: rng.choice(pool) for k in keys}
 
 
+EXACT_OPS = POLYNOMIAL - {'cp', 'acp', 'outerexp', 'outersin', 'outercos'}
+
+
+def _exactly_equal(a, b):
+    try:
+        return bool(a == b)
+    except Exception:
+        return False
+
+
 def _finite(v):
     try:
         c = complex(v)
@@ -255,18 +265,73 @@ def check_special_values(ctx, alg, iso, cfg, op, keysets, case_id, timeout=20, k
     if not all(_finite(v) for v in list(got.values()) + list(exp.values())):
         ctx.count('special_values_nonfinite_skipped')
         return 'skip'
-    if kind == 'bigint' and not all(is_exact(v) for v in got.values()):
-        # generated code may legitimately contain float constants (1/2): integers beyond 2^53 then lose digits; only all-integer
-        # results are judged (integer arithmetic must be exact)
-        ctx.count('special_values_bigint_float_result_skipped')
-        return 'skip'
-    ctx.count('special_value_executions')
-    ctx.count('special_values_' + kind)
-    bad = elem_diff(got, exp, tol=1e-6 if kind == 'npscalar' else 1e-9)
+    exact_in = kind in ('bigint', 'exactmix', 'bool')
+    if exact_in and op in EXACT_OPS:
+        # these operators need nothing but sums and products of coefficients with integer signs: on exact operands (ints beyond 2^53,
+        # Fractions) the result must EQUAL the exact reference value under Python's exact number comparison -- a float that merely
+        # approximates it (a stray float constant in generated code, a detour through a float inverse) is a different number
+        ctx.count('special_value_executions')
+        ctx.count('special_values_' + kind)
+        ctx.count('special_values_compared_exactly')
+        bad = sorted(k for k in set(got) | set(exp) if not _exactly_equal(got.get(k, 0), exp.get(k, 0)))
+    else:
+        if kind == 'bigint' and not all(is_exact(v) for v in got.values()):
+            # cp/acp/outerexp legitimately contain float constants (1/2, 1/k!): integers beyond 2^53 then lose digits; not judged
+            ctx.count('special_values_bigint_float_result_skipped')
+            return 'skip'
+        ctx.count('special_value_executions')
+        ctx.count('special_values_' + kind)
+        bad = elem_diff(got, exp, tol=1e-6 if kind == 'npscalar' else 1e-9)
     if bad:
         ctx.violation('wrong-element on special coefficient values', list(case_id) + ['special', kind, [[repr(vm[k]) for k in ks] for ks, vm in zip(keysets, valmaps)]],
                       config=cfg, op=op, value_kind=kind,
                       operands=[{alg.bin2canon[k]: repr(vm[k]) for k in ks} for ks, vm in zip(keysets, valmaps)],
                       got=show_elem({k: got.get(k) for k in bad[:4]}), expected=show_elem({k: exp.get(k, 0) for k in bad[:4]}))
+        return 'violation'
+    return 'ok'
+
+
+# ---------------------------------------------------------------------------------
+# a multivector is a mutable container (x[...] = ..., a widget drag writing into its values): anything an instance remembers about
+# itself (cached_property, memo attribute) must not survive an in-place coefficient update.
+
+def check_inplace_staleness(ctx, alg, cfg, call, keys, case_id, label, other_keys=None, timeout=20):
+    """call(x[, y]) -> multivector, through an instance method of x.  Evaluate, update coefficients of the same object x in place,
+    evaluate again, and compare with the same call on a fresh multivector holding the updated coefficients."""
+    import numpy as np
+    from kingdon.multivector import MultiVector
+    rng = ctx.rng
+    if not keys:
+        return 'skip'
+    vals = [gen.dyadic(rng) or 1.0 for _ in keys]
+    backing = rng.choice(['list', 'ndarray'])
+    x = MultiVector.fromkeysvalues(alg, tuple(keys), np.array(vals, dtype=float) if backing == 'ndarray' else list(vals))
+    args = []
+    if other_keys is not None:
+        args = [value_mv(alg, other_keys, {k: gen.dyadic(rng) or 1.0 for k in other_keys})]
+    st, first = ctx.guarded(timeout, call, x, *args)
+    if st != 'ok':
+        return 'skip'
+    container = x.values()
+    js = rng.sample(range(len(keys)), rng.randint(1, len(keys)))
+    newvals = list(vals)
+    for j in js:
+        newvals[j] = vals[j] * rng.choice((2.0, -3.0, 0.5)) + rng.choice((0.0, 1.0))
+        container[j] = newvals[j]
+    fresh = MultiVector.fromkeysvalues(alg, tuple(keys), np.array(newvals, dtype=float) if backing == 'ndarray' else list(newvals))
+    st2, second = ctx.guarded(timeout, call, x, *args)
+    st3, want = ctx.guarded(timeout, call, fresh, *args)
+    if st2 != 'ok' or st3 != 'ok':
+        if (st2 == 'exc') != (st3 == 'exc'):
+            ctx.note_raised(second if st2 == 'exc' else want, 'inplace-' + label)
+        return 'skip'
+    ctx.count('inplace_update_reevaluations')
+    g, w = (mv_dict(second) if hasattr(second, 'keys') else {0: second}), (mv_dict(want) if hasattr(want, 'keys') else {0: want})
+    bad = elem_diff(g, w)
+    if bad:
+        ctx.violation(f'{label} on an object whose coefficients were updated in place differs from {label} on a fresh multivector with the same coefficients (stale value)',
+                      list(case_id) + ['inplace', label, backing], config=cfg, keys=list(keys), backing=backing,
+                      before=vals, after=newvals, on_updated_object=show_elem({k: g.get(k) for k in bad[:4]}),
+                      on_fresh_object=show_elem({k: w.get(k) for k in bad[:4]}))
         return 'violation'
     return 'ok'
